@@ -160,6 +160,9 @@ class ScalarConverter(Converter[T]):
         """See [`Converter.try_convert`][pane.converters.Converter.try_convert]"""
         if isinstance(val, self.allowed):
             try:
+                if self.ty is str and isinstance(val, str):
+                    # the text itself: subclasses may print differently (members of ``(str, Enum)`` classes do)
+                    return str.__str__(val)  # type: ignore
                 return self.ty(val)  # type: ignore
             except Exception:
                 raise ParseInterrupt()
